@@ -366,6 +366,12 @@ func corpus(pts []mc.PVal) [][]byte {
 			mc.Extensions(u, tail, 2, add)
 		}
 	}
+	// both coordinates special at once ((0,0) is "infinity" in other libraries' conventions, never a SEC 1 encoding)
+	for _, sx := range special {
+		for _, sy := range special {
+			add(cat([]byte{4}, ref.B32(sx), ref.B32(sy)))
+		}
+	}
 	// limb-structured coordinates: p - 2^k, 2^256-1-2^k, 2^k, 2^k - 1, p + 2^k for every k, as compressed
 	// encodings (both parities) and as x of an uncompressed encoding with the reference y when one exists
 	for k := uint(0); k < 256; k++ {
